@@ -259,6 +259,30 @@ def check(ctx):
     ctx.rule("R11", "for ANY status block: an output byte that is not in the item's label list (one past the last option included) reads 'Unknown' - not wired to a known device - and never raises out of the scan (C11.R4's enum decode over all 256 raw bytes borrowed)")
     from .c11 import enum_decode_total as _edt
     _edt(ctx.borrowed("R11", "C11"), repo, "R4")
+    ctx.rule("R13", "every output that can carry a device is scanned: in every shipped config table, each `Out...` Enum item whose label list offers a user device (a pump speed, blower, waterfall, light) is listed in that table's output_keys - the scan reads only the listed outputs, so an output dropped from the list (`OutLi` of one inXM config) makes the facade lose the device wired to it on exactly those spas")
+    _USER13 = ("P1", "P2", "P3", "P4", "P5", "BL", "Waterfall", "LI")
+    n13 = 0
+    for stem_, m_ in sorted(T.modules.items()):
+        if m_.kind != "cfg":
+            continue
+        outs_ = set(m_.props.get("output_keys", []) or [])
+        for it_ in m_.items:
+            if not it_.key.startswith("Out"):
+                continue
+            try:
+                g_ = T.geometry(it_)
+            except Exception:  # noqa: BLE001 - malformed items are C18's findings
+                continue
+            labs_ = [l_ for l_ in (g_.get("items") or []) if isinstance(l_, str) and any(l_.startswith(d_) for d_ in _USER13)]
+            if g_.get("type") != "Enum" or not labs_:
+                continue
+            n13 += 1
+            if it_.key not in outs_:
+                ctx.ob("R13", f"{stem_}::{it_.key}::scanned", False,
+                       f"{stem_}: output item {it_.key} can be wired to {labs_[:4]} but is not in output_keys {sorted(outs_)[:6]}...: a device on that output never reaches the inventory", m_.path)
+    ctx.ob("R13", "device-carrying-outputs-are-listed", True, f"{n13} device-carrying output items of the config tables are all listed", sample={"rule": "R13", "items": n13})
+    ctx.count("R13:device-carrying output items", n13)
+    ctx.floor("R13", "device-carrying output items", n13, 600)
     ctx.rule("R12", "the inventory does not drift: on model facades of both classes every read-only member that returns devices is read three times - the pump, blower, light and sensor lists the scan left are unchanged and every read gives the same devices (a member that builds its answer by extending one of the facade's own lists files blowers under the pumps and lists them again on every read)")
     from ..facademodel import inventory_reads_are_pure as _irp
     _irp(ctx, repo, "R12")
